@@ -8,6 +8,7 @@ from .. import paths
 from ..core import FUNC, AnalysisError, inert, call_attr, calls_in, const, dotted, is_const, kwarg, norm, slice_parts, text, walk_local
 
 EXPLANATION = [
+    "C20.mux-teardown: every method of rfcomm.Multiplexer that takes it to DISCONNECTED completes a pending disconnect() on each path that performs the transition (the UA answering our DISC and the peer's crossing DISC alike).",
     'C20.enum-agreement: the set / dict attributes of AgProtocol and HfProtocol are tested and emptied (discard, remove, in) with members of the enum types they are filled with: a member of another enum spelled alike is a different key.',
     'C20.fifo: every deque of the anchored modules that is filled with append / extend is emptied with popleft or by iteration (never pop()), and conversely: queued entries come out in the order they went in.',
     "C20.identity: no `is` / `is not` comparison in the anchored modules has an operand declared as a number, byte string or string (identity of equal integers holds only inside CPython's small-integer cache, so such a test is right for values up to 256 and wrong afterwards).",
@@ -1233,7 +1234,50 @@ def enum_agreement_rule(ctx):
     enum_member_agreement(ctx, 'C20.enum-agreement', ['bumble.hfp.AgProtocol', 'bumble.hfp.HfProtocol'])
 
 
+def mux_teardown(ctx):
+    """Whichever frame takes the multiplexer to DISCONNECTED (the UA answering our DISC, or the peer's own DISC crossing
+    ours), a local disconnect() that is waiting is completed: every path that performs the transition while
+    `disconnection_result` is set settles it."""
+    R, p = ctx.r, ctx.p
+    rule = 'C20.mux-teardown'
+    ci = p.cls('bumble.rfcomm.Multiplexer')
+    if ci is None:
+        R.bad(rule, 'bumble.rfcomm.Multiplexer', 'anchor missing')
+        return
+    n = 0
+    for name, m in sorted(ci.methods.items()):
+        if not any(isinstance(c, ast.Call) and dotted(c.func) == 'self.change_state' and c.args and text(c.args[0]).endswith('State.DISCONNECTED') for c in ast.walk(m)):
+            continue
+        n += 1
+
+        class D(paths.Domain):
+            def event(self, node, v):
+                if isinstance(node, ast.Call):
+                    d = dotted(node.func) or ''
+                    if d == 'self.change_state' and node.args and text(node.args[0]).endswith('State.DISCONNECTED'):
+                        return ((True, v[1]),)
+                    if d in ('self.disconnection_result.set_result', 'self.disconnection_result.set_exception', 'self.disconnection_result.cancel'):
+                        return ((v[0], True),)
+                return (v,)
+
+            def assume(self, atom, truth, v):
+                t = norm(atom)
+                if t in ('self.disconnection_result', 'self.disconnection_result is not None'):
+                    return (v,) if truth else ()      # a disconnect() caller is waiting
+                if t == 'self.disconnection_result is None':
+                    return () if truth else (v,)
+                if t == 'self.disconnection_result.done()' and truth:
+                    return ((v[0], True),)
+                return (v,)
+        res = paths.run(m, D(), (False, False))
+        bad = [' '.join(w) for k, st in res.items() if not k.startswith('raise') for v, w in st.items() if v[0] and not v[1]]
+        R.check(not bad, rule, f'bumble.rfcomm.Multiplexer.{name} | -> DISCONNECTED', 'a waiting disconnect() is completed on every path that reaches DISCONNECTED',
+                f'{name} takes the multiplexer to DISCONNECTED without completing a pending disconnect(): when both ends disconnect at the same time each gets the other\'s DISC first, the later UA is ignored, and both disconnect() calls wait for ever', p.loc(m), bad[:2])
+    R.check(n >= 2, rule, 'bumble.rfcomm.Multiplexer | closing transitions', f'{n} methods reach DISCONNECTED', f'only {n} found')
+
+
 RULES = [
+    ('C20.mux-teardown', mux_teardown),
     ('C20.enum-agreement', enum_agreement_rule),
     ('C20.fifo', fifo_rule),
     ('C20.identity', identity_rule),
